@@ -17,7 +17,7 @@ def check(pid):
 
 
 # thorough tiers that finished in well under two minutes are deepened by these factors
-THOROUGH_DEPTH = {"C01": 12, "C02": 12, "C04": 12, "C05": 4, "C06": 4, "C09": 6, "C10": 12, "C13": 12, "C14": 6, "C15": 6, "C16": 20, "C17": 15, "C19": 10, "C11": 4, "C03": 3, "C07": 2}
+THOROUGH_DEPTH = {"C01": 12, "C02": 12, "C04": 12, "C05": 4, "C06": 4, "C09": 6, "C10": 12, "C13": 12, "C14": 6, "C15": 6, "C16": 20, "C17": 15, "C19": 3, "C11": 4, "C03": 3, "C07": 2}
 
 
 def n(out, quick, thorough):
@@ -686,7 +686,7 @@ def c18(out):
 @check("C19")
 def c19(out):
     ard = os.path.join(core.REPO, "arduino", "libraries", "Skinny")
-    out.rule = ("Arduino sources (portable C++ path) compiled for the host from the working tree; case index -> class of 11 (3 of 4 cases) or CTR<T> over the five Skinny-128 classes (1 of 4): random sequences of 2..40 operations over "
+    out.rule = ("Arduino sources (portable C++ path) compiled for the host from the working tree; case index -> class of 11 (4 of 5 cases) or CTR<T> over the five Skinny-128 classes (1 of 5): random sequences of 2..40 operations over "
                 "setKey (valid and wrong lengths), setTweak (bytes / NULL / wrong length), swapModes (Mantis8), encryptBlock, decryptBlock (in place 1/3), clear+setKey; every block compared with the C library keyed from scratch "
                 "with (key, latest tweak, mode) and with the reference model. CTR<T>: setKey, setIV (carries/wrap), encrypt/decrypt with random cuts incl. zero-length, in place or not, compared with skinny128_ctr_*. "
                 "distinct = distinct (class, key, tweak sequence) / (class, key, iv, cuts).")
